@@ -37,7 +37,7 @@ func init() {
 
 func genSBloom(seed uint64, tier, variant string) any {
 	r := planRand(seed, 0xC37)
-	p := &ProbPlan{Scenario: "sbloom", Variant: variant, Clients: 1 + r.IntN(2), Multiplex: pick(r, 0, 0, 1), ReadOnly: r.IntN(3) == 0}
+	p := &ProbPlan{Scenario: "sbloom", Variant: variant, Clients: 1 + r.IntN(2), ReadOnly: r.IntN(3) == 0}
 	var heavy bool
 	p.N, p.FP, heavy = probConfig(r, false)
 	// accepted windows start at one second; odd numbers of milli- and microseconds included
@@ -58,9 +58,7 @@ func genSBloom(seed uint64, tier, variant string) any {
 	for i, n := 0, r.IntN(3); i < n; i++ {
 		p.Ghosts = append(p.Ghosts, ProbGhost{MinStep: r.IntN(150), Argv: []string{"SCRIPT", "FLUSH"}})
 	}
-	if variant != "nofault" {
-		probFaults(r, p)
-	}
+	probFaults(r, p)
 	return p
 }
 
